@@ -77,6 +77,41 @@ def dl_graph_scripts(rng, n):
     return out
 
 
+def dl_detour_scripts(rng, n):
+    """Directed family: a cycle of 4-6 difference constraints of total weight -1 (unsat) or 0 (sat), mostly 0-weight
+    edges, plus 1-3 longer detours through extra vertices between vertices of the cycle, asserted in random order —
+    shortest-path / consequence searches must re-expand a vertex that is reached again over a shorter path."""
+    out = []
+    for i in range(n):
+        logic = rng.choice(["QF_IDL", "QF_IDL", "QF_RDL"])
+        srt = "Int" if logic == "QF_IDL" else "Real"
+        k = rng.randint(4, 6)
+        cyc = ["c%d" % j for j in range(k)]
+        total = rng.choice([-1, -1, 0])
+        ws = [0] * k
+        ws[rng.randrange(k)] = total
+        if rng.random() < 0.4:
+            a, b = rng.sample(range(k), 2)
+            d = rng.randint(1, 3)
+            ws[a] += d
+            ws[b] -= d
+        lit = lambda w: "(- %d)" % -w if w < 0 else "%d" % w
+        edges = ["(assert (<= (- %s %s) %s))" % (cyc[j], cyc[(j + 1) % k], lit(ws[j])) for j in range(k)]
+        extra = []
+        for dj in range(rng.randint(1, 3)):
+            a = rng.randrange(k)
+            b = (a + rng.randint(2, k - 1)) % k
+            m = "d%d" % dj
+            extra.append(m)
+            edges.append("(assert (<= (- %s %s) %s))" % (cyc[a], m, lit(rng.randint(0, 2))))
+            edges.append("(assert (<= (- %s %s) %s))" % (m, cyc[b], lit(rng.randint(2, 6))))
+        rng.shuffle(edges)
+        lines = ["(set-option :produce-models true)", "(set-logic %s)" % logic] + ["(declare-fun %s () %s)" % (v, srt) for v in cyc + extra]
+        lines += edges + ["(check-sat)", "(get-model)"]
+        out.append(("\n".join(lines) + "\n", logic))
+    return out
+
+
 def lattice_scripts(rng, n):
     """Directed family (QF_LIA / QF_UFLIA): constraints that are feasible over the rationals but not over the integers
     (parity equations a*x + b*y = c with gcd(a,b) not dividing c, open unit strips 0 < 2x-2y < 2, small lattice-free
@@ -190,6 +225,7 @@ def directed(ctx, scripts, tag):
 def run(ctx):
     import solvercheck as sc
     directed(ctx, dl_graph_scripts(ctx.rng, 60 if ctx.quick else 1500), "dl-graph")
+    directed(ctx, dl_detour_scripts(ctx.rng, 240 if ctx.quick else 5000), "dl-detour")
     directed(ctx, lattice_scripts(ctx.rng, 40 if ctx.quick else 1000), "lattice")
     cnf_tie(ctx, 90 if ctx.quick else 2500)
     answercheck.run_corpus(ctx, "C02", judge_sat=True, judge_unsat=False)
